@@ -585,6 +585,26 @@ def oracle_pipe(ck, rng):
                     got_ = ff(sc); got_ = np.asarray(got_[0] if isinstance(got_, list) else got_)
                     if got_.shape != fa.shape or not np.allclose(got_, fa, atol=1e-4):
                         fails.append(f"{nm_} at original scale {osc} requested at {rel} x that: shape {got_.shape} vs from_array {fa.shape}")
+        # several files, in the caller's order (not sorted by name, generators and Path objects included): image i comes from path i
+        from pathlib import Path
+        names = ["template_10.mrc", "template_2.mrc", "b/template_1.mrc", "a_last.mrc"]
+        os.makedirs(os.path.join(dtmp, "b"), exist_ok=True)
+        vals = {}
+        for k_, nm_ in enumerate(names):
+            pth = os.path.join(dtmp, nm_)
+            arr_ = (fimg[:8, :9, :10] + 10.0 * (k_ + 1)).astype(np.float32)
+            with mrcfile.new(pth, overwrite=True) as fh:
+                fh.set_data(arr_); fh.voxel_size = 10.0
+            vals[nm_] = arr_
+        for order_ in ([0, 1, 2, 3], [3, 2, 1, 0], [1, 3, 0, 2]):
+            paths_ = [os.path.join(dtmp, names[k_]) for k_ in order_]
+            for how in ("list of str", "tuple of Path"):
+                for sc in (1.0, 2.0):
+                    arg = list(paths_) if how == "list of str" else tuple(Path(p_) for p_ in paths_)
+                    got_ = pipe.from_files(arg, original_scale=1.0)(sc)
+                    each = [np.asarray(pipe.from_file(p_, original_scale=1.0)(sc)) for p_ in paths_]
+                    if len(got_) != len(each) or any(np.asarray(g_).shape != e_.shape or not np.allclose(g_, e_, atol=1e-4) for g_, e_ in zip(got_, each)):
+                        fails.append(f"from_files ({how}, order {order_}) at scale {sc}: image i is not from_file(paths[i])")
     finally:
         shutil.rmtree(dtmp, ignore_errors=True)
     # the batch provider behaves like the single one for every (original_scale, tol, scale): unchanged within tol, resampled beyond it
